@@ -142,20 +142,24 @@ struct Array {
     }
 
     void operator+=(Type_T &&item) {
+        Type_T *src = &item;
+
         if (Size() == Capacity()) {
-            resize((Capacity() | (Capacity() == 0)) * SizeT{2});
+            src = const_cast<Type_T *>(growKeeping(src));
         }
 
-        Memory::Initialize((Storage() + Size()), Memory::Move(item));
+        Memory::Initialize((Storage() + Size()), Memory::Move(*src));
         ++index_;
     }
 
     inline void operator+=(const Type_T &item) {
+        const Type_T *src = &item;
+
         if (Size() == Capacity()) {
-            resize((Capacity() | (Capacity() == 0)) * SizeT{2});
+            src = growKeeping(src);
         }
 
-        Memory::Initialize((Storage() + Size()), item);
+        Memory::Initialize((Storage() + Size()), *src);
         ++index_;
     }
 
@@ -359,6 +363,17 @@ struct Array {
 
     void setCapacity(SizeT new_capacity) noexcept {
         capacity_ = new_capacity;
+    }
+
+    // Doubles the storage. 'item' can be an element of this array (a += a[i]): returns where it is afterwards.
+    const Type_T *growKeeping(const Type_T *item) {
+        const Type_T *old   = Storage();
+        const bool    owned = ((item >= old) && (item < (old + Size())));
+        const SizeT   index = (owned ? SizeT(item - old) : SizeT{0});
+
+        resize((Capacity() | (Capacity() == 0)) * SizeT{2});
+
+        return (owned ? (Storage() + index) : item);
     }
 
     void resize(SizeT new_size) {
